@@ -27,16 +27,22 @@
 EXTENDS RecvScen
 
 CONSTANTS CapUp, CapDown,     \* channel capacities in items; 0 = rendezvous (io.Pipe)
+          Modes,              \* handshake modes explored: subset of {"cmd", "daemon"}
+          ListOrders,         \* orders in which the sender may transmit the list: subset of {"asc", "desc", "any"}
+                              \* (the protocol fixes none - the receiver sorts; "any" explores all 2^n prefixes)
           RcvAfterGen         \* FALSE: generator and receiver run concurrently (the code, receiver/do.go);
                               \* TRUE: a mutant in which the receiver starts when the generator is done -
                               \* it must deadlock under small capacities (control that the model can tell)
 
 VARIABLES dirv,               \* "pull" | "push"
+          modev,              \* "cmd": command mode (remote shell, local copy, library): binary version exchange;
+                              \* "daemon": the daemon protocol: text greetings, module line, OK, argument lines
           up, down,           \* channel contents: sequences of <<kind, n>>
           snd,                \* the sending side (one goroutine): [pc, f]
           gen, rcv, main,     \* the receiving side: generator, receiver, main routine
-          sent                \* indices of the (sorted) list already transmitted
-wvars == <<dirv, up, down, snd, gen, rcv, main, sent>>
+          sent,               \* indices of the (sorted) list already transmitted
+          ordv                \* the order this sender transmits the list in
+wvars == <<dirv, modev, up, down, snd, gen, rcv, main, sent, ordv>>
 rvars == <<svars, wvars>>
 
 P(p, f) == [pc |-> p, f |-> f]
@@ -50,33 +56,46 @@ IdxOfName(n) == IF IsListed(n) THEN CHOOSE i \in 1..Len(list) : list[i].name = n
 Requested(i) == i \in 1..Len(list) /\ \E j \in 1..Len(reqs) : reqs[j].name = list[i].name
 KindOfReq(i) == IF Requested(i) THEN LET k == CHOOSE j \in 1..Len(reqs) : reqs[j].name = list[i].name IN reqs[k].kind ELSE "none"
 
+(* ---- the handshake as two scripts of <<operation, item>>                                   *)
+(* command mode (rsyncd.go handleConn negotiate / clientmaincmd.go ClientRun): the client     *)
+(* writes its protocol version, the server reads it, answers with its own and the checksum    *)
+(* seed.  Daemon protocol (rsyncd.go HandleDaemonConn / clientserver.go StartInbandExchange): *)
+(* BOTH ends write their "@RSYNCD: 27" greeting before reading the other's (so this exchange  *)
+(* needs a transport that buffers - a socket; over zero-capacity pipes it cannot start, which *)
+(* TLC confirms); module line, "@RSYNCD: OK", the argument lines (the client's options as the *)
+(* server must see them, C14), then the seed                                                  *)
+ClientScript == IF modev = "cmd" THEN << <<"put", "ver">>, <<"get", "ver">>, <<"get", "seed">> >>
+                ELSE << <<"put", "greet">>, <<"get", "greet">>, <<"put", "module">>, <<"get", "ok">>, <<"put", "args">>, <<"get", "seed">> >>
+ServerScript == IF modev = "cmd" THEN << <<"get", "ver">>, <<"put", "ver">>, <<"put", "seed">> >>
+                ELSE << <<"put", "greet">>, <<"get", "greet">>, <<"get", "module">>, <<"put", "ok">>, <<"get", "args">>, <<"put", "seed">> >>
+SndScript == IF Pull THEN ServerScript ELSE ClientScript       \* pulling: the server sends
+MainScript == IF Pull THEN ClientScript ELSE ServerScript
+HsGets(p, script) == p.pc = "hs" /\ p.f <= Len(script) /\ script[p.f][1] = "get"
+
 (* ---- channels; with capacity 0 a put needs the reader parked in its get *)
 CanPut(ch, cap, readerReady) == IF cap = 0 THEN ch = <<>> /\ readerReady ELSE Len(ch) < cap
-UpReaderReady == snd.pc \in {"getver", "getseed", "getrules", "read", "sums", "bye"}
-DownReaderReady == main.pc \in {"getver", "getseed", "getrules", "getlist", "stats"} \/ rcv.pc \in {"read", "toks", "end"}
+UpReaderReady == HsGets(snd, SndScript) \/ snd.pc \in {"getrules", "read", "sums", "bye"}
+DownReaderReady == HsGets(main, MainScript) \/ main.pc \in {"getrules", "getlist", "stats"} \/ rcv.pc \in {"read", "toks", "end"}
 PutUp(x) == CanPut(up, CapUp, UpReaderReady) /\ up' = Append(up, x)
 PutDown(x) == CanPut(down, CapDown, DownReaderReady) /\ down' = Append(down, x)
 GetUp(kind) == up # <<>> /\ Head(up)[1] = kind /\ up' = Tail(up)
 GetDown(kind) == down # <<>> /\ Head(down)[1] = kind /\ down' = Tail(down)
 
 RInit == /\ ScnInit
-         /\ dirv \in {"pull", "push"}
+         /\ dirv \in {"pull", "push"} /\ modev \in Modes /\ ordv \in ListOrders
          /\ up = <<>> /\ down = <<>> /\ sent = {}
-         /\ snd = P(IF Pull THEN "getver" ELSE "putver", 0)
-         /\ main = P(IF Pull THEN "putver" ELSE "getver", 0)
+         /\ snd = P("hs", 1) /\ main = P("hs", 1)
          /\ gen = P("wait", 0) /\ rcv = P("wait", 0)
 
 (* ================================================================ sending side *)
 (* handshake and rules: the server reads the client's version, answers with  *)
 (* its own and the checksum seed; rsyncd.go handleConn / clientmaincmd.go    *)
 SndHandshake ==
-  /\ CASE snd.pc = "getver"  -> /\ GetUp("ver") /\ UNCHANGED down
-                                /\ snd' = P(IF Pull THEN "putver" ELSE "getseed", 0)
-       [] snd.pc = "putver"  -> /\ PutDown(<<"ver", 0>>) /\ UNCHANGED up
-                                /\ snd' = P(IF Pull THEN "putseed" ELSE "getver", 0)
-       [] snd.pc = "putseed" -> /\ PutDown(<<"seed", 0>>) /\ UNCHANGED up /\ snd' = P("getrules", 1)
-       [] snd.pc = "getseed" -> /\ GetUp("seed") /\ UNCHANGED down
-                                /\ snd' = IF RulesOnWire THEN P("putrules", 1) ELSE P("list", 0)
+  /\ CASE snd.pc = "hs" ->
+            /\ LET st == SndScript[snd.f] IN
+                 IF st[1] = "put" THEN PutDown(<<st[2], 0>>) /\ UNCHANGED up ELSE GetUp(st[2]) /\ UNCHANGED down
+            /\ snd' = IF snd.f < Len(SndScript) THEN P("hs", snd.f + 1)
+                      ELSE IF Pull THEN P("getrules", 1) ELSE IF RulesOnWire THEN P("putrules", 1) ELSE P("list", 0)
        [] snd.pc = "getrules" ->        \* a sending server reads the client's rule list
             /\ UNCHANGED down
             /\ IF snd.f <= NRules THEN GetUp("rule") /\ Head(up)[2] = snd.f /\ snd' = P("getrules", snd.f + 1)
@@ -86,7 +105,7 @@ SndHandshake ==
             /\ IF snd.f <= NRules THEN PutDown(<<"rule", snd.f>>) /\ snd' = P("putrules", snd.f + 1)
                ELSE PutDown(<<"rend", 0>>) /\ snd' = P("list", 0)
        [] OTHER -> FALSE
-  /\ UNCHANGED <<svars, dirv, gen, rcv, main, sent>>
+  /\ UNCHANGED <<svars, dirv, modev, gen, rcv, main, sent, ordv>>
 
 (* file list: every entry of SenderList(source, options, rules) exactly     *)
 (* once, in whatever order the walk produces; then the terminator with the  *)
@@ -94,9 +113,11 @@ SndHandshake ==
 SndList ==
   /\ snd.pc = "list" /\ UNCHANGED up
   /\ \/ \E i \in (1..Len(list)) \ sent :
+            /\ ordv = "asc" => \A j \in (1..Len(list)) \ sent : i <= j
+            /\ ordv = "desc" => \A j \in (1..Len(list)) \ sent : i >= j
             /\ PutDown(<<"ent", i>>) /\ sent' = sent \cup {i} /\ snd' = snd
      \/ /\ sent = 1..Len(list) /\ PutDown(<<"lend", ioerr>>) /\ snd' = P("read", 0) /\ UNCHANGED sent
-  /\ UNCHANGED <<svars, dirv, gen, rcv, main>>
+  /\ UNCHANGED <<svars, dirv, modev, gen, rcv, main, ordv>>
 
 (* the transfer loop: sender.go SendFiles; under -n the request is the      *)
 (* index alone and so is the answer                                         *)
@@ -116,17 +137,15 @@ SndLoop ==
        [] snd.pc = "stats" -> /\ PutDown(<<"stats", 0>>) /\ UNCHANGED up /\ snd' = P("bye", 0)
        [] snd.pc = "bye"  -> /\ GetUp("bye") /\ UNCHANGED down /\ snd' = P("done", 0)
        [] OTHER -> FALSE
-  /\ UNCHANGED <<svars, dirv, gen, rcv, main, sent>>
+  /\ UNCHANGED <<svars, dirv, modev, gen, rcv, main, sent, ordv>>
 
 (* ================================================================ receiving side: main routine *)
 MainHandshake ==
-  /\ CASE main.pc = "putver"  -> /\ PutUp(<<"ver", 0>>) /\ UNCHANGED down
-                                 /\ main' = P(IF Pull THEN "getver" ELSE "putseed", 0)
-       [] main.pc = "getver"  -> /\ GetDown("ver") /\ UNCHANGED up
-                                 /\ main' = P(IF Pull THEN "getseed" ELSE "putver", 0)
-       [] main.pc = "getseed" -> /\ GetDown("seed") /\ UNCHANGED up /\ main' = P("putrules", 1)
-       [] main.pc = "putseed" -> /\ PutUp(<<"seed", 0>>) /\ UNCHANGED down
-                                 /\ main' = IF RulesOnWire THEN P("getrules", 1) ELSE P("getlist", 0)
+  /\ CASE main.pc = "hs" ->
+            /\ LET st == MainScript[main.f] IN
+                 IF st[1] = "put" THEN PutUp(<<st[2], 0>>) /\ UNCHANGED down ELSE GetDown(st[2]) /\ UNCHANGED up
+            /\ main' = IF main.f < Len(MainScript) THEN P("hs", main.f + 1)
+                       ELSE IF Pull THEN P("putrules", 1) ELSE IF RulesOnWire THEN P("getrules", 1) ELSE P("getlist", 0)
        [] main.pc = "putrules" ->       \* a receiving client always transmits its rule list
             /\ UNCHANGED down
             /\ IF main.f <= NRules THEN PutUp(<<"rule", main.f>>) /\ main' = P("putrules", main.f + 1)
@@ -136,30 +155,30 @@ MainHandshake ==
             /\ IF main.f <= NRules THEN GetDown("rule") /\ Head(down)[2] = main.f /\ main' = P("getrules", main.f + 1)
                ELSE GetDown("rend") /\ main' = P("getlist", 0)
        [] OTHER -> FALSE
-  /\ UNCHANGED <<svars, dirv, snd, gen, rcv, sent>>
+  /\ UNCHANGED <<svars, dirv, modev, snd, gen, rcv, sent, ordv>>
 
 MainList ==
   /\ main.pc = "getlist" /\ down # <<>> /\ Head(down)[1] \in {"ent", "lend"}
   /\ down' = Tail(down) /\ UNCHANGED up
   /\ main' = IF Head(down)[1] = "ent" THEN P("getlist", main.f + 1) ELSE P("delete", 0)
-  /\ UNCHANGED <<svars, dirv, snd, gen, rcv, sent>>
+  /\ UNCHANGED <<svars, dirv, modev, snd, gen, rcv, sent, ordv>>
 
 (* receiver/do.go Do: the delete pass precedes the generator *)
 MainDelete ==
   /\ main.pc = "delete" /\ SDeletePass
   /\ main' = P("join", 0) /\ gen' = P("idx", 0) /\ rcv' = P("read", 0)
-  /\ UNCHANGED <<dirv, up, down, snd, sent>>
+  /\ UNCHANGED <<dirv, modev, up, down, snd, sent, ordv>>
 
 MainJoin ==
   /\ main.pc = "join" /\ gen.pc = "done" /\ rcv.pc = "done" /\ SFinish
   /\ main' = P(IF Pull THEN "stats" ELSE "bye", 0)
-  /\ UNCHANGED <<dirv, up, down, snd, gen, rcv, sent>>
+  /\ UNCHANGED <<dirv, modev, up, down, snd, gen, rcv, sent, ordv>>
 
 MainEnd ==
   /\ CASE main.pc = "stats" -> /\ GetDown("stats") /\ UNCHANGED up /\ main' = P("bye", 0)
        [] main.pc = "bye"   -> /\ PutUp(<<"bye", 0>>) /\ UNCHANGED down /\ main' = P("done", 0)
        [] OTHER -> FALSE
-  /\ UNCHANGED <<svars, dirv, snd, gen, rcv, sent>>
+  /\ UNCHANGED <<svars, dirv, modev, snd, gen, rcv, sent, ordv>>
 
 (* ================================================================ receiving side: generator *)
 (* one file-list entry: RecvSide's Gen (GenStep on the destination) and, if *)
@@ -171,14 +190,14 @@ GenEntry ==
        ELSE /\ PutUp(<<"idx", gi + 1>>)
             /\ gen' = IF g.req = "dry" THEN gen ELSE P("sums", gi + 1)
   /\ SGen
-  /\ UNCHANGED <<dirv, down, snd, rcv, main, sent>>
+  /\ UNCHANGED <<dirv, modev, down, snd, rcv, main, sent, ordv>>
 GenSums ==
   /\ gen.pc = "sums" /\ PutUp(<<"sum", gen.f>>) /\ gen' = P("idx", 0)
-  /\ UNCHANGED <<svars, dirv, down, snd, rcv, main, sent>>
+  /\ UNCHANGED <<svars, dirv, modev, down, snd, rcv, main, sent, ordv>>
 GenMarkers ==
   /\ \/ gen.pc = "idx" /\ pc = "run" /\ gi = Len(list) /\ PutUp(<<"m", 1>>) /\ gen' = P("m2", 0)
      \/ gen.pc = "m2" /\ PutUp(<<"m", 2>>) /\ gen' = P("done", 0)
-  /\ UNCHANGED <<svars, dirv, down, snd, rcv, main, sent>>
+  /\ UNCHANGED <<svars, dirv, modev, down, snd, rcv, main, sent, ordv>>
 
 (* ================================================================ receiving side: receiver *)
 RcvMayRun == ~RcvAfterGen \/ gen.pc = "done"
@@ -189,11 +208,11 @@ RcvRead ==
   /\ LET y == Head(down) IN
        rcv' = IF y[1] = "ans" THEN (IF opts.n THEN rcv ELSE P("toks", y[2]))
               ELSE IF y[2] = 1 THEN P("read", 0) ELSE P("done", 0)
-  /\ UNCHANGED <<svars, dirv, up, snd, gen, main, sent>>
+  /\ UNCHANGED <<svars, dirv, modev, up, snd, gen, main, sent, ordv>>
 RcvToks ==
   /\ RcvMayRun
   /\ rcv.pc = "toks" /\ GetDown("tok") /\ Head(down)[2] = rcv.f /\ rcv' = P("end", rcv.f)
-  /\ UNCHANGED <<svars, dirv, up, snd, gen, main, sent>>
+  /\ UNCHANGED <<svars, dirv, modev, up, snd, gen, main, sent, ordv>>
 (* the whole-file checksum arrived and matched: RecvSide's Rcv (rename over  *)
 (* the destination, attributes) - the ONLY step that changes a listed       *)
 (* regular file                                                             *)
@@ -203,7 +222,7 @@ RcvCommit ==
   /\ pend # <<>> /\ Head(pend).name = list[rcv.f].name
   /\ SRcv
   /\ rcv' = P("read", 0)
-  /\ UNCHANGED <<dirv, up, snd, gen, main, sent>>
+  /\ UNCHANGED <<dirv, modev, up, snd, gen, main, sent, ordv>>
 
 Finished == main.pc = "done" /\ snd.pc = "done"
 RStutter == Finished /\ UNCHANGED rvars
